@@ -292,6 +292,17 @@ def gen_rhythm_cases(rng, n, table):
         pre, post = frag(rng, 1, rng.randrange(0, 2), SIMPLE), frag(rng, 1, rng.randrange(0, 2), SIMPLE)
         word = rng.choice(["Rhythm", "Rhythm", "RHYTHM", "R", "Rythm"])
         out.append(("%s%s %s{%s} %s" % (deftext, pre, word, text, post), "%s %s %s" % (pre, rhythm_expand(defs, text), post), "rhythm", True, True))
+    # a macro is expanded to its TEXT at every use, under the definitions in force at that moment: the same macro used before
+    # and after a rhythm letter was redefined at run time (by another macro) plays the old and then the new letter
+    for _ in range(max(4, n // 12)):
+        c = rng.choice(list("bshm"))
+        t1, t2 = rng.sample(["n35,", "n40,", "n60,", "n37,16", "n45,8", "r"], 2)
+        x = " ".join(rng.choice([c, c + "4", c + "8", "r8", "(v100)"]) for _ in range(rng.randrange(1, 5))) + " " + c
+        k = rng.choice([2, 3])
+        uses = " ".join(["#Rm"] + ["#Df #Rm"] * (k - 1))
+        macro = "#Rm={Rhythm{%s}} #Df={$%s{%s}} $%s{%s} %s" % (x, c, t2, c, t1, uses)
+        inline = "$%s{%s} Rhythm{%s} " % (c, t1, x) + " ".join(["$%s{%s} Rhythm{%s}" % (c, t2, x)] * (k - 1))
+        out.append((macro, inline, "rhythm_runtime", True, True))
     return out
 
 
